@@ -51,6 +51,7 @@ static int32_t s_accept(qb_ipcs_connection_t *c, uid_t u, gid_t g) { (void)c; (v
 static void s_created(qb_ipcs_connection_t *c) { SC = c; }
 static int32_t s_closed(qb_ipcs_connection_t *c) { (void)c; return 0; }
 static void s_destroyed(qb_ipcs_connection_t *c) { if (c == SC) SC = NULL; }
+static int tail_phase;
 static int32_t s_msg(qb_ipcs_connection_t *c, void *data, size_t size)
 {
 	int beh;
@@ -71,6 +72,9 @@ static int32_t s_msg(qb_ipcs_connection_t *c, void *data, size_t size)
 		vp_log("  S: response_send(%zu) = %zd", size, r);
 		if (r >= 0 && r != (ssize_t)size) vp_fail("response_send of %zu bytes returned %zd", size, r);
 		if (if_end(&IF_RS, r, "response_send")) { RS[rst] = IF_RS.m; rst++; }
+		/* the request handed to the callback stays what it was for as long as the callback runs
+		   (the client may have been sending meanwhile) */
+		check_payload(data, size, &RQ[rqh], 1, "message callback, at its end");
 	}
 	rqh++;
 	return beh == 2 ? -1 : 0;
@@ -83,7 +87,7 @@ static void server_turn(void)
 {
 	int c;
 	if (drain_phase) { if (drain_phase == 1) { qb_ipcs_request_rate_limit(SV, QB_IPCS_RATE_NORMAL); drain_phase = 2; } return; }
-	if (!SC || sactions_left <= 0 || !W_free_choices) return;
+	if (!SC || sactions_left <= 0 || !(W_free_choices || tail_phase)) return;
 	c = vp_choose(1 + 3 + 4 + (W_small_bufs ? 1 : 0), "server action");
 	if (c == 0) return;
 	sactions_left--;
@@ -146,6 +150,8 @@ static void client_main(void *arg)
 	maxmsg = (size_t)qb_ipcc_get_buffer_size(CC);
 	vp_log("  C: connected, negotiated maximum %zu", maxmsg);
 	W_free_choices = 1;
+	/* the server application may act on its own before the client does anything (its loop is woken once) */
+	{ struct timespec ts = { 0, 1000000 }; W_poke_server = 1; nanosleep(&ts, NULL); }
 	for (step = 0; step < cdepth; step++) {
 		int c;
 		vp_yield_free("client op boundary");
@@ -169,8 +175,13 @@ static void client_main(void *arg)
 	}
 	/* quiescence: let the server finish, then take everything that is still in flight */
 	client_done = 1;
-	drain_phase = 1;
+	/* the server still gets turns (and its remaining application actions) after the client's last operation;
+	   the client is waiting, so there is nothing left to interleave: no scheduling choices any more */
 	W_free_choices = 0;
+	tail_phase = 1;
+	{ struct timespec ts = { 0, 5000000 }; int i; for (i = 0; i < 2; i++) { W_poke_server = 1; nanosleep(&ts, NULL); } }
+	tail_phase = 0;
+	drain_phase = 1;
 	{
 		int rounds;
 		for (rounds = 0; rounds < 40; rounds++) {
@@ -196,7 +207,7 @@ static void run(void)
 	struct qb_ipcs_service_handlers h = { .connection_accept = s_accept, .connection_created = s_created, .msg_process = s_msg,
 					      .connection_closed = s_closed, .connection_destroyed = s_destroyed };
 	world_init_sched();
-	rqh = rqt = rsh = rst = evh = evt = seqctr = client_done = drain_phase = 0; SC = NULL; CC = NULL;
+	rqh = rqt = rsh = rst = evh = evt = seqctr = client_done = drain_phase = tail_phase = 0; SC = NULL; CC = NULL;
 	memset(&IF_RQ, 0, sizeof IF_RQ); memset(&IF_RS, 0, sizeof IF_RS); memset(&IF_EV, 0, sizeof IF_EV);
 	sactions_left = sactions_max;
 	transport = vp_choose(2, "transport");
